@@ -274,9 +274,13 @@ impl<D: DataMut> GLWESwitchingKey<D> {
 impl<D: DataMut> ReaderFrom for GLWESwitchingKey<D> {
     /// Deserialises from little-endian binary format.
     fn read_from<R: std::io::Read>(&mut self, reader: &mut R) -> std::io::Result<()> {
-        self.input_degree = Degree(reader.read_u32::<LittleEndian>()?);
-        self.output_degree = Degree(reader.read_u32::<LittleEndian>()?);
-        self.key.read_from(reader)
+        // Temporaries first: `self` is only touched once the whole object has been read.
+        let input_degree: Degree = Degree(reader.read_u32::<LittleEndian>()?);
+        let output_degree: Degree = Degree(reader.read_u32::<LittleEndian>()?);
+        self.key.read_from(reader)?;
+        self.input_degree = input_degree;
+        self.output_degree = output_degree;
+        Ok(())
     }
 }
 
